@@ -41,7 +41,9 @@ CHECKS.update({
                 technique="contract-based deductive verification (pyvc, z3) of the index discipline; runtime contracts as bounded stand-in for the numeric clauses",
                 note=OTHER_NOTE + " Assumed contract: _push_cano moves the centre by one site and keeps the dense object."),
     "C05": dict(cat="other", ref="DESIGN §8 C05, App. A.2",
-                text="Kept-count functions (_fixed_m_trunc, _threshold_m_trunc, compute_m_trunc) proved for all inputs: result <= available singular values and <= "
+                text="Engine S kernel-stub mode: which entry of a per-bond / per-node limit applies to the bond being cut is decided for all tensor values by probes (limit 1 everywhere "
+                     "except on the cut bond; limits equal to the current bond dimensions) through the real chain two-site update, tree compress and tree update_2site. "
+                     "Kept-count functions (_fixed_m_trunc, _threshold_m_trunc, compute_m_trunc) proved for all inputs: result <= available singular values and <= "
                      "the limit of the bond the caller truncates; induction lemmas for the threshold count; structural link to the call sites; Eckart-Young / "
                      "TT-SVD sandwich against dense SVD spectra as runtime contracts (chains incl. degenerate spectra and non-uniform limits).",
                 technique="contract-based deductive verification (pyvc, z3; call by contract; induction lemmas) + theorem-derived runtime contracts as bounded stand-in",
@@ -72,12 +74,15 @@ CHECKS.update({
                 note=OTHER_NOTE + " print_tree shim is part of the trusted base; complex operators are outside TTNO's documented domain."),
     "C07": dict(cat="other", ref="DESIGN §8 C07",
                 text="Exact symbolic execution of the real expectation / expectations code decides, per enumerated shape and operator list, that the cached fast path, "
-                     "the one-by-one path and the dense sesquilinear form are the same polynomial (all tensor values, bra != ket); occupations, RDMs and entropies are "
-                     "runtime contracts against the dense vector. Two recorded findings (RDMs of complex states are conjugated).",
+                     "the one-by-one path and the dense sesquilinear form are the same polynomial (all tensor values, bra != ket), and that the one- and two-site RDMs of states and "
+                     "density operators are the partial traces of psi psi^+ / A A^+; occupations, the electronic RDM and entropies are "
+                     "runtime contracts against the dense vector.",
                 technique="contracts decided exactly by symbolic execution of the real code (polynomial identities) + runtime contracts as bounded stand-in",
                 note=OTHER_NOTE + " Shims of the symbolic runs are listed in evidence."),
     "C08": dict(cat="other", ref="DESIGN §8 C08, S.2",
-                text="Engine S: for symbolic chain states (any tensors) the matrix the optimiser diagonalises at every site (1-site) and every pair of sites (2-site) - "
+                text="Engine S kernel-stub mode: the renormalised-basis update of the two-site algorithm (_update_mps: svd_qn -> compute_m_trunc -> select_basis -> write back), single root with "
+                     "and without the per-sector perturbation and state-averaged (every root reproduced by the kept basis), loses nothing and keeps the labels valid for all tensor values. "
+                     "Engine S: for symbolic chain states (any tensors) the matrix the optimiser diagonalises at every site (1-site) and every pair of sites (2-site) - "
                      "environments from the real Environ.GetLR, the real get_ham_direct, with and without the omega target, plus the preconditioner diagonal of get_ham_iterative - "
                      "equals J^H H J (resp. J^H H^2 J), the Hamiltonian projected onto the symmetry-allowed entries of the optimised tensor, exactly. "
                      "Variational-theorem contracts against exact diagonalisation of the sector-projected dense Hamiltonian: every reported energy is an upper bound "
@@ -86,7 +91,7 @@ CHECKS.update({
                           "variational theorem on the real optimiser over bounded inputs (bounded stand-in for the eigensolver / convergence clauses)",
                 note=OTHER_NOTE),
     "C09": dict(cat="other", ref="DESIGN §8 C09, S.2",
-                text="Engine S (kernel-stub mode): the real _evolve_prop_and_compress (Taylor), _tdrk4 and _tdrk (all eight single-row tableaux) run on symbolic states with "
+                text="Engine S (kernel-stub mode): the real _evolve_prop_and_compress (Taylor orders 1..7), _tdrk4 and _tdrk (all eight single-row tableaux) run on symbolic states with "
                      "lossless compressions; the dense result equals sum_k d_k (-i dt H)^k psi with d_k computed from the tableau in rational arithmetic (C19 certifies d_k = 1/k! "
                      "up to the order), and for H(t) the exact explicit Runge-Kutta recursion with absolute stage times - for all states of the enumerated shapes, states with the "
                      "centre moved, density operators, real and imaginary time. Theorem-derived error bounds per scheme (Taylor / stage-polynomial remainder with the coefficients certified in C19, exactness of PS/PS2/VMF at "
@@ -153,7 +158,7 @@ CHECKS.update({
                 technique="runtime contracts against an independent tree contraction over enumerated tree shapes (bounded stand-in)",
                 note=OTHER_NOTE + " print_tree shim is part of the trusted base."),
     "C12": dict(cat="other", ref="DESIGN §8 C12, S.2",
-                text="Engine S (kernel-stub mode): evolve_prop_and_compress_tdrk4 on symbolic tree states of every rooted ordered tree shape (2..4(5) nodes) equals "
+                text="Engine S (kernel-stub mode): TTNS.update_2site (two-site projector splitting) on every bond incl. the per-node limit probe; evolve_prop_and_compress_tdrk4 on symbolic tree states of every rooted ordered tree shape (2..4(5) nodes) equals "
                      "sum_{k<=4} (coeff tau H)^k / k! psi exactly, real and imaginary time; the velocity returned by time_derivative_vmf is checked (bounded) to be the orthogonal "
                      "projection of H psi on the tangent space for truncated manifolds and any norm. Theorem-derived bounds for the four tree evolution schemes in real and imaginary time vs scipy expm, sector conservation, input frame, multi-step histories, "
                      "norm/energy conservation of one-site PS at bond limits 1-2, linear tree vs chain implementation, purified P x Q trees vs the dense Gibbs state. Bounded.",
